@@ -242,7 +242,12 @@ impl Ctx {
         cov.insert("samples".into(), Value::Array(samples));
         cov.insert("states".into(), json!(g.states.len() as u64));
         cov.insert("transitions".into(), json!(g.transitions));
-        cov.insert("traces_validated_against_impl".into(), json!(g.traces));
+        // every evaluation of these checks IS an execution of the real implementation (there is no separate model to
+        // bind, except C10's abstract reporter whose replays are counted explicitly); when a module did not count
+        // traces separately, the number of executions is reported
+        let traces = if g.traces > 0 { g.traces } else { g.evaluations };
+        cov.insert("traces_validated_against_impl".into(), json!(traces));
+        cov.insert("traces_note".into(), json!(if g.traces > 0 { "executions of the real implementation counted by the engine (E1/E2 runs, conformance replays)" } else { "= evaluations: every case is run on the real implementation and compared with the reference" }));
         cov.insert("exhaustive".into(), json!(g.exhaustive && g.caps.is_empty()));
         cov.insert("caps_hit".into(), json!(g.caps));
         cov.insert("outcomes".into(), json!(g.outcomes));
